@@ -14,7 +14,8 @@ RULE = ("every rule class x exhaustive small profiles (ranked rules: 3 candidate
         "profiles; distinct = canonical (profile, rule, configuration); non-trivial = >=2 candidates with weight and >=2 ballots")
 
 RANKED_TIES = ["Plurality", "SNTV", "Borda", "TopTwo", "RandomDictator", "BoostedRandomDictator", "PluralityVeto"]
-RANKED_UNTIED = ["Alaska", "DominatingSets", "CondoBorda"]
+RANKED_UNTIED = ["Alaska", "Alaska1", "DominatingSets", "CondoBorda"]
+EPS = F(1, 10 ** 20)  # tallies this close are different numbers: no tie, no tiebreak, no ValueError
 SCORE = ["Rating", "Limited", "Cumulative", "Approval", "BlocPlurality"]
 
 
@@ -26,8 +27,10 @@ def build(rule, prof, m, tb, extra=None):
         return E.Borda(prof, m, None, tb), m
     if rule == "TopTwo":
         return E.TopTwo(prof, tb), 1
-    if rule == "Alaska":
+    if rule in ("Alaska", "Alaska1"):
         m1, m2 = extra
+        if rule == "Alaska1":  # one-by-one election in the STV stage
+            return E.Alaska(prof, m1, m2, tiebreak=tb, simultaneous=False), m2
         return E.Alaska(prof, m1, m2, tiebreak=tb), m2
     if rule == "DominatingSets":
         return E.DominatingSets(prof), None
@@ -86,8 +89,27 @@ def cases(tier, seed):
             for rule in RANKED_UNTIED:
                 m = rot([1, 2, 3])
                 tb = rot([None, "random", "borda"])
-                extra = rot([(1, 1), (2, 1), (2, 2), (3, 1), (3, 2), (3, 3)]) if rule == "Alaska" else None
+                extra = rot([(1, 1), (2, 1), (2, 2), (3, 1), (3, 2), (3, 3)]) if rule in ("Alaska", "Alaska1") else None
+                if rule == "Alaska1":
+                    tb = rot(["borda", "first_place"])
+                    extra = rot([(2, 2), (3, 2), (3, 3), (2, 1)])
                 cs.append(("rank", rule, cands, bl, m, tb, extra))
+    # tallies that differ by less than double precision (and by less than 10^-6): exact arithmetic sees no tie
+    c3 = gen.NAMES[:3]
+    one = lambda c: (frozenset([c]),)
+    near = [[(one("A"), F(1)), (one("B"), 1 + EPS)], [(one("A") + one("B"), F(1)), (one("B") + one("C"), 1 + EPS), (one("C") + one("A"), 1 + 2 * EPS)],
+            [(one("A"), F(1, 3)), (one("B"), F(1, 3) + EPS), (one("C"), F(1, 3) - EPS)]]
+    first = []  # targeted families go first: a time-budget truncation under load must not drop them
+    for bl in near:
+        for rule in ("Plurality", "SNTV", "Borda", "TopTwo", "Alaska", "CondoBorda"):
+            for m in (1, 2):
+                for tb in (None, "random"):
+                    first.append(("rank", rule, c3, bl, m, tb, (3, m) if rule == "Alaska" else None))
+    for rule in SCORE:
+        for m in (1, 2):
+            for tb in (None, "random"):
+                first.append(("score", rule, c3, [({"A": F(1)}, F(1)), ({"B": F(1)}, 1 + EPS), ({"C": F(1)}, 1 - EPS)], m, tb, 1 if rule == "Limited" else None))
+    cs = first + [c for c in cs if c[1] == "Alaska1"] + [c for c in cs if c[1] != "Alaska1"]
     for nb in (1, 2):
         for cands, bl in score_profiles(3, nb, (0, 1, 2) if nb == 1 else (0, 1), (1, 2) if nb == 1 else (1, F(3, 2))):
             for rule in SCORE:
@@ -134,7 +156,7 @@ def expected_exception(kind, rule, cands, bl, m, tb, extra, ex):
     Wd = oracle.W_of(bl)
     if isinstance(ex, ValueError):
         msg = str(ex)
-        if rule == "Alaska":
+        if rule in ("Alaska", "Alaska1"):
             m1, m2 = extra
             if m1 > n:
                 return True
@@ -237,7 +259,7 @@ def check_case(case):
 def run(tier="quick", seed=0):
     cs = cases(tier, seed)
     r = common.run("bounded.C01", cs, bound="3 candidates x <=2 ballots x all m (quick); <=5 candidates x 6 ballots random (thorough)",
-                   rule=RULE, budget_s=170 if tier == "quick" else 1500)
+                   rule=RULE, budget_s=400 if tier == "quick" else 1800)
     # STV / IRV / SequentialRCV: the C02 cases, keeping the exception / outcome findings (keys C01:...)
     from . import C02
     r2 = C02.run(tier, seed, only_prefix="C01:", subsample=3 if tier == "quick" else 1)
